@@ -328,6 +328,33 @@ def analyse(mod, run, label):
         run.check(okm, "A6-pfor-marker-not-a-storable-offset", {"measured": repr(pfi.lin(val)), "largest_offset": repr(largest)},
                   Finding("A6-pfor-marker-collides-with-an-offset", pf.name, "exceptionMarker", "width",
                           "the offset width is measured for %r while normal values have offsets up to %r: when that offset is 2^(8*width)-1 it equals the exception marker and the value is decoded as an exception slot (lossy whenever PFOR is selected)" % (pfi.lin(val), largest), loc=loc(site)))
+    # ---- A7: the dictionary codec's index width is measured for the same quantity on the writing and on both reading sides ----
+    # (width of size - 1 everywhere today; a reader that measures size itself disagrees exactly when size is 256 or 65536 ...)
+    offs = {}
+    for fname in ("varintDictBuild", "varintDictDecode", "varintDictDecodeInto"):
+        f7 = need_fn(mod, fname); fi7 = w.fi(f7).prepare()
+        mv7 = measured_values(f7, w, memory_counter=True)
+        if len(mv7) != 1: raise AnalysisBroken("A7: %s: expected one index-width computation, found %d" % (fname, len(mv7)))
+        l7 = fi7.lin(mv7[0][0])
+        # a file-local "width for this dictionary size" helper: the quantity measured is what the helper measures of its argument
+        site = mv7[0][2]
+        for _ in range(2):
+            if site.op != "call": break
+            h7 = mod.fn(site.get("callee") or "")
+            if h7 is None or not h7.internal or not h7.blocks: break
+            inner = measured_values(h7, w, memory_counter=True)
+            if len(inner) != 1: break
+            hl = w.fi(h7).prepare().lin(inner[0][0])
+            args7 = [a for a in hl.atoms()]
+            if len(args7) != 1 or hl.t[args7[0]] != 1 or not (isinstance(args7[0], tuple) and args7[0][:2] == ("v", "arg") or isinstance(args7[0], tuple) and args7[0][0] == "arg"): break
+            l7 = l7 + hl.c; site = inner[0][2]
+        if len(l7.t) != 1 or list(l7.t.values()) != [1]: raise AnalysisBroken("A7: %s measures the width of %r, which is not size + constant" % (fname, l7))
+        offs[fname] = (l7.c, mv7[0][2])
+    ref = offs["varintDictBuild"][0]
+    for fname, (c7, site7) in sorted(offs.items()):
+        run.check(c7 == ref, "A7-dict-index-width-measured-alike", {"fn": fname, "measures": "size%+d" % c7, "writer_measures": "size%+d" % ref},
+                  Finding("A7-dict-index-width-differs", fname, "indexWidth", "measure",
+                          "%s derives the index width from size%+d while varintDictBuild (the writer) derives it from size%+d: for dictionaries whose size sits on a byte-width boundary the reader steps through the indices with another width and decodes other values" % (fname, c7, ref), loc=loc(site7)))
     # ---- A4 ----
     for i in dec.calls():
         c = i.get("callee")
